@@ -108,8 +108,26 @@ def run_C16(tier, seed):
     res.bound = {"instances": "%d instances (<=2x2x2 sampled + random <=4x4x4; flexible, recirculation, ragged, unused "
                               "machine ids), 4 builders; solved graphs for random dispatcher-built schedules and random "
                               "feasible non-dispatcher schedules (right-shifted), seed %d" % (len(insts), seed)}
+    retained = []   # graphs built earlier, re-examined after graphs of OTHER instances have been built
+
+    def intact(g, name, jobs):
+        want_nodes, want_E = spec_graph(name, jobs)
+        got_nodes, got_E = real_graph(g)
+        return ([(t, a) for t, a, _ in got_nodes] == want_nodes
+                and [i for _, _, i in got_nodes] == list(range(len(want_nodes)))
+                and sorted(g.graph.nodes) == list(range(len(want_nodes))) and got_E == want_E)
+
     for jobs in insts:
         inst = build_instance(jobs)
+        if retained:
+            res.count("graph-unaffected-by-later-builds")
+            for (name0, jobs0, g0) in retained[-3:]:
+                if not intact(g0, name0, jobs0):
+                    res.breach(f"graph-unaffected-by-later-builds:{name0}", "a graph that equalled its definition when it was "
+                               "built no longer does after graphs of other instances were built (shared node objects?)",
+                               jobs=jobs0, builder=name0, later_instance=jobs)
+                    retained = []
+                    break
         for name, builder in BUILDERS.items():
             res.count("graph-equals-definition")
             res.case((str(jobs), name))
@@ -133,6 +151,9 @@ def run_C16(tier, seed):
                 typed = [(e, got_E[e], want_E[e]) for e in got_E if e in want_E and got_E[e] != want_E[e]][:4]
                 res.breach(f"graph-edges:{name}", f"extra {extra}, missing {missing}, wrongly typed {typed}", jobs=jobs,
                            builder=name)
+            elif ok_nodes and rng.random() < 0.5:
+                retained.append((name, jobs, g))
+                del retained[:-6]
         # solved disjunctive graph
         if all(len(ms) == 1 for job in jobs for ms, _ in job):
             for k in range(2):
